@@ -176,10 +176,14 @@ def wl_ids(ctx, rng, i):
             ctx.count("instants_seen_first_at_other_precision")
     except Exception:
         pass
-    for route in ("parse", "parse-dict", "constructor", "parse-id-null"):
+    for route in ("parse", "parse-dict", "constructor", "parse-id-null", "constructor-id-empty-list", "constructor-extensions-empty-list"):
+        if route == "constructor-extensions-empty-list" and "extensions" in o:
+            continue
         ctx.ev()
         try:
-            obj = construct(o, route, rng) if route != "parse-id-null" else construct(dict(o, id=None), "parse", rng)      # null = not given
+            # null and [] = not given
+            obj = construct(dict(o, id=None), "parse", rng) if route == "parse-id-null" else construct(dict(o, id=[]), "constructor", rng) if route == "constructor-id-empty-list" \
+                else construct(dict(o, extensions=[]), "constructor", rng) if route == "constructor-extensions-empty-list" else construct(o, route, rng)
         except Exception as e:
             ctx.skip("construction refused (%s) -- C03's subject" % type(e).__name__)
             return
@@ -240,7 +244,9 @@ def wl_ids(ctx, rng, i):
         for route, gid in ids.items():
             if gid != exp:
                 key = "id-not-specification-exact" + (":tuple-values" if route == "constructor-tuples" and ids.get("constructor") == exp else "") + (
-                    ":type-declared-with-extension_name" if t == "x-stixmon-probe" else "")
+                    ":type-declared-with-extension_name" if t == "x-stixmon-probe" and route not in ("constructor-id-empty-list", "constructor-extensions-empty-list") else "") + (
+                    ":id-given-as-empty-list" if route == "constructor-id-empty-list" and ids.get("constructor") == exp else "") + (
+                    ":extensions-given-as-empty-list" if route == "constructor-extensions-empty-list" and ids.get("constructor") == exp else "")
                 if "hashes" in o and "hashes" in contrib_list(t):
                     # which hash would reproduce the library's id?
                     for a, hv in o["hashes"].items():
